@@ -884,8 +884,62 @@ def corpus_checks(ctx, tier):
                                   {"config": cfg.name, "source": src, "call": f"{sig} {args}", "legacy": [r0.ok, r0.out.hex()], "venom": [r.ok, r.out.hex()],
                                    "_key": fkey}))
                     break
+    import time
+    t0 = time.time()
     call_family_checks(ctx, tier, stats, fails)
+    t1 = time.time()
+    pass_corpus_checks(ctx, tier, stats, fails)
+    stats["seconds"] = {"call_family": round(t1 - t0, 1), "pass_corpus": round(time.time() - t1, 1)}
     return stats, fails
+
+
+def pass_corpus_checks(ctx, tier, stats, fails):
+    """join-block stack agreement (+ instruction validation, spill-region disjointness) over ALL functions of the C14
+    pass corpus (tools/vlib/c14_pass_corpus.py, which includes the C02 corpus) at O2 / O3 / Os / none and under every
+    usable disable flag; runtime and deploy code.  quick: a seeded sample of (program, configuration) pairs;
+    thorough: every program under all 19 configurations."""
+    from vyper.compiler.phases import CompilerData
+    from vyper.compiler.settings import anchor_settings
+    from vlib import c14_pass_corpus as PC
+    from vlib import c14s_corpus as C
+    from vlib import c14s_tv as TV
+    from vlib import configs
+    rnd = ctx.rng("c14s-passcorpus")
+    cfgs = [configs.Config(True, lvl, "cancun") for lvl in ("O2", "O3", "Os", "none")]
+    cfgs += [configs.Config(True, "O2", "cancun", flags=[f]) for f in configs.USABLE_FLAGS]
+    cfgs += [configs.Config(True, "O3", "cancun", flags=[f]) for f in configs.USABLE_FLAGS[::2]]
+    pairs = [(e, c) for e in PC.CORPUS for c in cfgs]
+    if tier == "quick":
+        pairs = rnd.sample(pairs, 8)
+    st = {"compiles": 0, "join_blocks": 0, "instructions_validated": 0, "programs": len({e["name"] for e, _ in pairs})}
+    for e, cfg in pairs:
+        src = e["src"]
+        try:
+            with C.EdgeRecorder() as rec, TV.InstRecorder() as tv, FR.FrameRecorder() as fr:
+                cd = CompilerData(src, settings=cfg.settings())
+                with anchor_settings(cd.settings):
+                    cd.assembly_runtime
+                    cd.assembly
+        except Exception as ex:
+            # (front-end / pass-level failures on this corpus are C14's business; a crash inside the back end is ours)
+            import traceback
+            tb = traceback.format_exc()
+            if "venom_to_assembly" in tb or "stack_spiller" in tb or "stack_model" in tb:
+                fails.append(("failing-input", f"venom back end crashes on pass-corpus program {e['name']} under {cfg.name}: {type(ex).__name__}: {ex}"[:300],
+                              {"config": cfg.name, "source": src, "trace": tb[-1500:]}))
+            continue
+        st["compiles"] += 1
+        st["instructions_validated"] += tv.n_ok
+        _frame_fails(fr, cfg, src, stats, fails)
+        n, bad = C.join_disagreements(rec.records)
+        st["join_blocks"] += n
+        if bad:
+            fails.append(("failing-input", f"stack layouts of the predecessors of a join block disagree ({e['name']}, {cfg.name}): {bad[0]['what']}",
+                          {"config": cfg.name, "source": src, "disagreements": bad[:3]}))
+        if tv.fail:
+            fails.append(("failing-input", f"emitted stack manipulation does not match the instruction's operands / the stack map ({e['name']}, {cfg.name}): "
+                          + tv.fail[0]["instruction"][:80], {"config": cfg.name, "source": src, "failures": tv.fail[:3]}))
+    stats["pass_corpus"] = st
 
 
 def call_family_checks(ctx, tier, stats, fails):
